@@ -213,4 +213,39 @@ inline std::string digestTwin(const std::vector<std::string>& names, Rng& r, siz
 	return core + suf;
 }
 
+// Same length, other content - and, where the length allows, the same value under a cheap digest an implementation might use to decide
+// "already up to date": CRC-32 (any multiple of the generator polynomial may be added), Adler-32 / byte sum (a +1 -2 +1 change keeps both
+// running sums), a plain byte sum or xor (two bytes exchanged), or only the last byte differs. `how` selects; falls back to the complement.
+inline std::vector<uint8_t> digestDecoy(const std::vector<uint8_t>& data, uint64_t how) {
+	std::vector<uint8_t> d = data;
+	uint64_t kind = how % 5, at = how / 5;
+	if (kind == 1 && d.size() >= 5) {
+		static const char* G = "100000100110000010001110110110111";
+		size_t p0 = static_cast<size_t>(at % ((d.size() - 5) * 8 + 7 + 1));
+		for (size_t j = 0; j < 33; ++j) if (G[j] == '1') { size_t p = p0 + j; d[p / 8] ^= static_cast<uint8_t>(1u << (p % 8)); }
+		return d;
+	}
+	if (kind == 2 && d.size() >= 3) {
+		for (size_t k = 0; k + 2 < d.size(); ++k) { size_t i = static_cast<size_t>((at + k) % (d.size() - 2)); if (d[i] < 255 && d[i + 1] >= 2 && d[i + 2] < 255) { d[i] += 1; d[i + 1] -= 2; d[i + 2] += 1; return d; } }
+	}
+	if (kind == 3 && d.size() >= 2) {
+		for (size_t k = 0; k + 1 < d.size(); ++k) { size_t i = static_cast<size_t>((at + k) % (d.size() - 1)); if (d[i] != d[i + 1]) { std::swap(d[i], d[i + 1]); return d; } }
+	}
+	if (kind == 4 && !d.empty()) { d.back() ^= static_cast<uint8_t>(1 + at % 255); return d; }
+	for (auto& b : d) b = static_cast<uint8_t>(~b);
+	return d;
+}
+
+// Payloads with structure a data-dependent shortcut may key on: 0 pseudo-random, 1 all zero, 2 second half zero, 3 first half zero,
+// 4 all 0xff, 5 one byte repeated, 6 a 4 KiB block repeated
+inline std::vector<uint8_t> patternBytes(uint64_t seed, size_t len, uint64_t pat) {
+	if (pat == 0) return prngBytes(seed, len);
+	std::vector<uint8_t> d(len, 0);
+	if (pat == 2 || pat == 3) { std::vector<uint8_t> h = prngBytes(seed, len - len / 2); if (pat == 2) std::copy(h.begin(), h.end(), d.begin()); else std::copy(h.begin(), h.end(), d.begin() + static_cast<long>(len / 2)); }
+	else if (pat == 4) std::fill(d.begin(), d.end(), 0xff);
+	else if (pat == 5) std::fill(d.begin(), d.end(), static_cast<uint8_t>(seed | 1));
+	else if (pat == 6) { std::vector<uint8_t> b = prngBytes(seed, 4096); for (size_t i = 0; i < len; ++i) d[i] = b[i % 4096]; }
+	return d;
+}
+
 } // namespace sim
